@@ -76,6 +76,7 @@ WholeClass(x, w) ==
        IN IF "error" \in {a, b} THEN "error" ELSE IF "other-or-error" \in {a, b} THEN "other-or-error" ELSE "other"
 Scenarios(name) == { [scheme |-> name, kind |-> "flip", region |-> r, class |-> RegionClass(r.kind)] : r \in Regions(Registry[name], 0) }
               \cup { [scheme |-> name, kind |-> "multi", region |-> r, class |-> RegionClass(r.kind)] : r \in {q \in Regions(Registry[name], 0) : q.bit = -1} }
+              \cup { [scheme |-> name, kind |-> "pair", region |-> r, class |-> RegionClass(r.kind)] : r \in {q \in Regions(Registry[name], 0) : q.bit = -1} }      \* the same bit flipped in two places of one region (equal changes to two coefficients must not cancel in a comparison)
               \cup { [scheme |-> name, kind |-> w, region |-> [kind |-> "whole", off |-> 0, len |-> Size(Registry[name]), bit |-> -1, ssoff |-> 0, sslen |-> SsSize(Registry[name]), skoff |-> 0, sklen |-> SkSize(Registry[name])], class |-> WholeClass(Registry[name], w)]
                      : w \in {"zero", "ff", "otherkey"} }
 AllScenarios == UNION { Scenarios(n) : n \in DOMAIN Registry }
